@@ -16,6 +16,7 @@
 From Coq Require Import List Arith ZArith Lia Bool.
 Import ListNotations.
 From GV Require Import Sched Events DeferredModel DeferredProofs.
+From GV Require Deferred2Model Deferred2Proofs.
 Local Open Scope Z_scope.
 
 (* ---------- exactly once ---------- *)
@@ -95,7 +96,7 @@ Proof. exact future_set_once. Qed.
 Theorem def_future : forall m th progs s tk, R m th progs s ->
   texec (gh (gl s)) tk <> None -> (forall u, rtask (pcof (thr s) u) <> Some tk) ->
   tfsets (gh (gl s)) tk = 1%nat /\
-  (tfut (gl s) tk = FExn \/ tfut (gl s) tk = FVal (tpre (gh (gl s)) tk * 16 + tfid (gl s) tk)).
+  (tfut (gl s) tk = FExn \/ tfut (gl s) tk = FVal (apply_f (tfid (gl s) tk) (tpre (gh (gl s)) tk))).
 Proof. exact future_result. Qed.
 Theorem def_future_pending : forall m th progs s tk, R m th progs s ->
   texec (gh (gl s)) tk = None -> tfut (gl s) tk = FPending.
@@ -138,6 +139,21 @@ Proof. exact bounded_work. Qed.
 Theorem def_ghost_irrelevant : forall t c g l h,
   erase_res (tstep t c (set_gh g h) l) = erase_res (tstep t c g l).
 Proof. exact ghost_irrelevant. Qed.
+
+(* ---------- two objects / modification functions that submit modifications (Model/Deferred2Model.v) ---------- *)
+(* x = false: object A, x = true: object B; objls x = the pcs of all threads in x's automaton (a thread inside a
+   functor of A that re-submits to A has a second pc there) *)
+Theorem def2_exactly_once_le : forall m progs (s : sys Deferred2Model.glob2 Deferred2Model.loc2) x tk,
+  Deferred2Proofs.R2 m progs s -> (tcount (gh (Deferred2Proofs.objg x (gl s))) tk <= 1)%nat.
+Proof. exact Deferred2Proofs.exactly_once_le2. Qed.
+Theorem def2_exclusive : forall m progs (s : sys Deferred2Model.glob2 Deferred2Model.loc2) x t,
+  Deferred2Proofs.R2 m progs s -> inbody (pcof (Deferred2Proofs.objls x (thr s)) t) = true ->
+  owner (Deferred2Proofs.objg x (gl s)) = Some t /\
+  (forall u, shl (locof (Deferred2Proofs.objls x (thr s)) u) = O) /\
+  (forall u, inbody (pcof (Deferred2Proofs.objls x (thr s)) u) = true -> u = t) /\
+  (forall u, u <> t -> rdopen (pcof (Deferred2Proofs.objls x (thr s)) u) = false /\
+                       wropen (pcof (Deferred2Proofs.objls x (thr s)) u) = false).
+Proof. exact Deferred2Proofs.running_exclusive2. Qed.
 
 (* ---------- non-vacuity: the hypotheses are met by concrete reachable states ---------- *)
 Notation runE := (run glob loc tstep).
@@ -195,3 +211,23 @@ Example ex_plain_self_block :
   pcof (thr s) 0 = S_acq (AcLock 1) /\ owner (gl s) = Some O /\ nown (hand (locof (thr s) 0)) = 1%nat /\
   tstep 0 0 (gl s) (locof (thr s) 0) = None.
 Proof. vm_compute. repeat split; reflexivity. Qed.
+
+(* a queued modification function of A that re-submits to A (functor 1, inner functor 2): the drain that applies
+   functor 1 (thread 0's first load) leaves the inner submission QUEUED with the flag up - the drainer owns the
+   mutex, so the inner call takes the queued path, and the running drain works on the list it swapped out before -
+   and the next access (the second load) applies it *)
+Definition resubmit_progs : list (list Deferred2Model.op2) :=
+  [[Deferred2Model.OnA (LockShared 0); Deferred2Model.OnA (Release 0); Deferred2Model.OnA LoadOp; Deferred2Model.OnA LoadOp];
+   [Deferred2Model.Nested 16 (ModifyDetach 1) true false 2]].
+Definition resubmit_1 :=
+  run Deferred2Model.glob2 Deferred2Model.loc2 Deferred2Model.tstep2 (Deferred2Model.init2 0 resubmit_progs)
+      (rep 0 3 ++ rep 1 5 ++ rep 0 2 ++ rep 0 23).
+Example resubmission_left_queued :
+  let g := Deferred2Model.gA (gl resubmit_1) in
+  queue g = [1%nat] /\ flag g = true /\ texec (gh g) 0 <> None /\ texec (gh g) 1 = None /\ pay g = 1 /\ owner g = None /\
+  pcof (Deferred2Proofs.objls false (thr resubmit_1)) 0 = Idle.
+Proof. vm_compute. repeat split; auto; discriminate. Qed.
+Example resubmission_applied_by_next_access :
+  let g := Deferred2Model.gA (gl (run Deferred2Model.glob2 Deferred2Model.loc2 Deferred2Model.tstep2 resubmit_1 (rep 0 19))) in
+  queue g = [] /\ texec (gh g) 1 <> None /\ pay g = 1 * 16 + 2 /\ tcount (gh g) 0 = 1%nat /\ tcount (gh g) 1 = 1%nat.
+Proof. vm_compute. repeat split; auto; discriminate. Qed.
